@@ -96,6 +96,18 @@ Print Assumptions success_needs_terminator.
 
 (* For Connect streaming and gRPC-Web the end-of-body verdict is itself a
    failure with a non-zero code, so with [cut_response] every cut fails. *)
+(* the same for unary calls (CallUnary, CloseAndReceive): one message, then a second
+   Receive that must see the terminator *)
+Theorem unary_success_needs_terminator :
+  forall (M : Type) (on_special : N -> bytes -> outcome) (on_eof : outcome) (on_error : N -> outcome),
+  (forall c, on_error c <> Clean) ->
+  forall rs m,
+  unary_outcome M on_special on_eof on_error rs = UOk m ->
+  exists r2 rest, rs = UMsg m :: r2 :: rest /\
+    ((exists fl d, r2 = USpecial fl d /\ on_special fl d = Clean) \/ (r2 = UErr REOF /\ on_eof = Clean)).
+Proof. exact unary_success_needs_terminator_lemma. Qed.
+Print Assumptions unary_success_needs_terminator.
+
 Theorem inband_eof_is_failure :
   connect_on_eof = Failed 13 /\ grpcweb_on_eof = Failed 13.
 Proof. split; reflexivity. Qed.
